@@ -14,10 +14,11 @@ from common import (EVIDENCE, REPLAYS, TRUSTED_BASE, VERIF, Infra, check_props, 
 WH = {
     # pid: (views compared with the model, compare ret, compare events, op filter, description)
     "C01": (["content"], True, False, None),
-    "C03": (["content"], True, False, lambda op: op.split()[0] in ("qry", "eqry", "qwr", "wrt")),
+    "C03": (["content"], True, False, lambda op: op.split()[0] in ("qry", "eqry", "nqry", "qwr", "wrt")),
     "C02": (["content", "alloc"], True, False, None),
     "C04": ([], False, True, None),
     "C06": (["content", "alloc", "res"], True, False, None),
+    "C09": (["content"], True, False, lambda op: op.split()[0] in ("pqry", "pqwr")),
     "C10": (["content", "alloc", "res", "struct"], True, True, None),
     "C11": (["content", "alloc", "res"], True, False, lambda op: op.split()[0] == "cde"),
     "C13": (["content", "alloc", "struct"], True, False, None),
@@ -347,11 +348,16 @@ def ctor_check(pid, tier, seed, t0):
     if err:
         raise Infra("constructor harness does not build:\n" + err[-2000:])
     lines = []
+    crashed = []
     for b in sorted({binname, "ctor"}):
         p = common.run([os.path.join(common.TARGET, "debug", b)], check=False, timeout=600)
+        out = [l for l in p.stdout.split("\n") if l.strip()]
         if p.returncode != 0:
-            raise Infra("constructor harness crashed: " + p.stdout[-1000:])
-        lines += [l for l in p.stdout.split("\n") if l.strip()]
+            # the process died inside the library: the case that had begun and never reported is the culprit
+            begun = [l for l in out if l.startswith("begin ")]
+            crashed.append((b, p.returncode, begun[-1] if begun else "(before the first case)"))
+        lines += [l for l in out if not l.startswith("begin ") and l.split()[0] in ("world", "batch") and
+                  l.split()[-1] in ("ok", "panic") or (l.startswith("batch") and " ok " in l)]
     lines = sorted(set(lines))
     cases = []
     for l in lines:
@@ -394,7 +400,14 @@ def ctor_check(pid, tier, seed, t0):
                 model_err = "model output count mismatch"
                 model = None
     viol, diverged = [], []
+    for b, rcode, last in crashed:
+        cols = last.split()[-1] if last.startswith("begin batch") else "?"
+        cases.append({"kind": "crash", "line": "%s exited with status %s while running: %s" % (b, rcode, last)})
+        viol.append((len(cases) - 1, "the constructor harness died (status %s) inside the library while running '%s': a batch with "
+                                     "column lengths %s reached extend" % (rcode, last, cols)))
     for i, c in enumerate(cases):
+        if c["kind"] == "crash":
+            continue
         if c["kind"] == "world":
             dup = len(set(c["reg"])) != len(c["reg"])
             if dup and c["verdict"] != "panic":
@@ -440,6 +453,7 @@ def ctor_check(pid, tier, seed, t0):
         path = write_replay(pid, seed, {"property": pid, "kind": "no-failing-input-found", "no_longer_checks": what})
         print("VIOLATION property=%s replay=%s no-failing-input-found" % (pid, path))
         rc = 1
+    cases = [c for c in cases if c["kind"] != "crash"] if not crashed else cases
     nw = [c for c in cases if c["kind"] == "world"]
     nb = [c for c in cases if c["kind"] == "batch"]
     cov = {
